@@ -257,7 +257,7 @@ pub fn check(j: &Job, c: &Case, l: &mut Local, lossy_mode: bool) -> CaseResult {
     Ok(())
 }
 
-fn jobs(filter: impl Fn(&str, &FormatModel) -> bool) -> Vec<Job> {
+pub fn jobs(filter: impl Fn(&str, &FormatModel) -> bool) -> Vec<Job> {
     let c = cat();
     let mut v = Vec::new();
     for i in c.group("core") {
